@@ -127,3 +127,10 @@ Fixpoint ctrs_fwd (maxi : Z) (l : list Z) : bool :=
   | a :: ((b :: _) as r) => ctr_fwd maxi a b && ctrs_fwd maxi r
   | _ => true
   end.
+
+(* ---- every id comes from the generator ----
+   c0 = counter when the observation started, id = the id a call (or ping) carries, ctr = a reading of the counter taken
+   after the id was drawn.  The counter moves forward only (int32 wrap, the Cas jumps ahead), so in the forward order from c0
+   the id lies strictly after c0 and not after ctr. *)
+Definition id_in_window (c0 id ctr : Z) : bool :=
+  let d := (id - c0) mod two32 in let w := (ctr - c0) mod two32 in negb (d =? 0) && (d <=? w).
